@@ -724,7 +724,7 @@ pub fn procfs_describe(handle: &ProcfsHandle) -> (i32, Option<u64>, bool, bool) 
 
 /// The process-global procfs handle used by the resolvers.
 pub fn global_procfs() -> &'static ProcfsHandle {
-    &crate::procfs::GLOBAL_PROCFS_HANDLE
+    crate::procfs::global_procfs_handle().expect("verif: global procfs handle")
 }
 
 pub fn openat2_is_supported() -> bool {
